@@ -153,7 +153,10 @@ def step (s : DSt) (line : String) : DSt × List String :=
         | ks :: op :: es :: more, some cst =>
           match ks.toNat?, cst.entity es with
           | some k, some h =>
-            if (s.p.world? k).isNone then (s, ["bad-op"]) else
+            -- the unguarded entry points (contract: valid handle) take a foreign handle only as a DEFERRED command
+            let unguarded := ["assign", "assign0", "build", "sassign", "markdirty"].contains op
+            let locked := match s.p.world? k with | some t => t.wm.isLocked | none => false
+            if (s.p.world? k).isNone || (unguarded && !locked) then (s, ["bad-op"]) else
             let raw := "raw:" ++ String.ofList (Nat.toDigits 16 h.seen.value)
             s.onWorld k (" ".intercalate (op :: raw :: more))
           | _, _ => (s, ["bad-op"])
